@@ -263,3 +263,39 @@ class TagD(TagB):
 
 def only_x(x='ox'):
   return vfx.rec('only_x', locals())
+
+
+class DictObj:
+  """A dict-based object registered for serialization."""
+
+  def __init__(self, a=None, b=None):
+    self.a = a
+    self.b = b
+
+  def __canon__(self):
+    return ('DictObj', self.a, self.b)
+
+  def __eq__(self, other):
+    return type(other) is DictObj and self.__dict__ == other.__dict__
+
+  __hash__ = None
+
+
+class Const:
+  """A value registered as a serialization constant."""
+
+  def __repr__(self):
+    return 'vfx.nodes.CONST'
+
+
+CONST = Const()
+
+
+def _register_serialization():
+  from fiddle.experimental import serialization  # pylint: disable=g-import-not-at-top
+  serialization.register_dict_based_object(DictObj)
+  serialization.register_constant('vfx.nodes', 'CONST',
+                                  compare_by_identity=True)
+
+
+_register_serialization()
